@@ -57,7 +57,8 @@ func (t *XMPPTransport) Connect() (string, error) {
 func (t *XMPPTransport) StartStream() (string, error) {
 	if _, err := fmt.Fprintf(t, t.openStatement, t.Config.Domain); err != nil {
 		t.Close()
-		return "", NewConnError(err, true)
+		// The connection broke before the stream could be opened: as transient as failing to read the reply
+		return "", NewConnError(err, false)
 	}
 
 	sessionID, err := stanza.InitStream(t.GetDecoder())
